@@ -479,6 +479,12 @@ def oracle(case):
                              "end": a["end"], "n_events": len(a["events"]), "final": a["final"], "next": a["next"]},
              "generated": {"event": b["events"][first] if first is not None and first < len(b["events"]) else None,
                            "end": b["end"], "n_events": len(b["events"]), "final": b["final"], "next": b["next"]}}
+    elif not hdef and differ(canon_obs(ri), canon_obs(rg)):
+        # an expression read storage that was unset at that moment and the backends went different ways
+        a, b = canon_obs(ri), canon_obs(rg)
+        o = {"kind": "backends_differ_on_unset_read",
+             "interpreter": {"end": a["end"], "n_events": len(a["events"])},
+             "generated": {"end": b["end"], "n_events": len(b["events"])}}
     return o, ri, rg, obs, hdef
 
 
@@ -623,6 +629,12 @@ def guarded_loop_bound(case):
 
 def classify_known(o, case):
     """narrow matchers for the listed open findings (known_findings.json)"""
+    if o and o.get("kind") == "backends_differ_on_unset_read" and o["generated"]["end"][0] == "crash":
+        # the generated class raises (UnboundLocalError) where the interpreter carried on with None, or raised
+        # something else later because of that None
+        for f in common.known_findings(PID):
+            if f.get("class") == "unset_temporary_read":
+                return f
     if o and o.get("kind") == "backends_differ" and guarded_loop_bound(case) \
             and o["generated"]["end"][0] == "crash" and o["interpreter"]["end"][0] != "crash":
         for f in common.known_findings(PID):
@@ -716,8 +728,9 @@ def main(tier):
         samples=[{"program": str(make_code(cases[i])), "mode": cases[i]["mode"], "limit": cases[i]["limit"]}
                  for i in (len(cases) // 2,)],
     )
-    rep.assumptions = ["H-def: no expression reads storage that is unset at that moment (the backends differ by "
-                       "construction there: None vs UnboundLocalError); such programs are run but not compared",
+    rep.assumptions = ["H-def: programs in which an expression reads per-step storage that is unset at that moment are "
+                       "compared too; a difference there in which generated code raises is the listed open finding "
+                       "unset_temporary_read (None vs UnboundLocalError), anything else is a violation",
                        "A1-A3 as in C02", "emission of Python text is covered by the differential run only"]
     return rep.finish("proof")
 
